@@ -250,12 +250,14 @@ fn check_remove<const N: usize>() {
 }
 
 // ---- update ------------------------------------------------------------------
-fn check_update<const N: usize>() {
+fn check_update<const N: usize, const CONNECTED: bool>() {
     clock::set_any(HORIZON);
     let mut b = any_bucket::<N>();
     let a0 = abs(&b);
     let x: u8 = kani::any();
-    let st = any_status();
+    // the new status is a const parameter: the two cases are separate harnesses
+    // (measured: both in one harness exhaust CBMC's memory for N >= 1)
+    let st = if CONNECTED { NodeStatus::Connected } else { NodeStatus::Disconnected };
     b.update(&k(x), st);
     let a1 = abs(&b);
     assert!(wf(&b));
@@ -264,7 +266,6 @@ fn check_update<const N: usize>() {
         assert!(a1 == a0);
         return;
     }
-    let was_first = d == Some(0) || (a0.disc.n == 0 && c == Some(0));
     let disc = match d { Some(i) => a0.disc.remove_at(i), None => a0.disc };
     let conn = match c { Some(i) => a0.conn.remove_at(i), None => a0.conn };
     // moved to the end (most recently updated) of the list of its new status
@@ -273,13 +274,13 @@ fn check_update<const N: usize>() {
     } else {
         assert!(a1.disc == disc.push(x) && a1.conn == conn);
     }
-    // the pending entry is dropped exactly when its replacement candidate (the
-    // first entry) has just become connected
-    if was_first && st == NodeStatus::Connected {
+    // "only if that entry is still disconnected": when the replacement candidate
+    // (the least-recently-disconnected entry, nodes[0]) becomes connected the pending
+    // entry must be dropped; an update never installs a different pending entry
+    if d == Some(0) && st == NodeStatus::Connected {
         assert!(a1.pend.is_none());
-    } else {
-        assert!(a1.pend == a0.pend);
     }
+    assert!(a1.pend.is_none() || a1.pend == a0.pend);
 }
 
 // ---- apply_pending -------------------------------------------------------------
@@ -412,29 +413,57 @@ fn contract_remove_n3() {
 #[kani::proof]
 #[kani::unwind(34)]
 #[kani::stub(std::time::Instant::now, clock::now)]
-fn contract_update_n0() {
-    check_update::<0>();
+fn contract_update_connected_n0() {
+    check_update::<0, true>();
 }
 
 #[kani::proof]
 #[kani::unwind(34)]
 #[kani::stub(std::time::Instant::now, clock::now)]
-fn contract_update_n1() {
-    check_update::<1>();
+fn contract_update_disconnected_n0() {
+    check_update::<0, false>();
 }
 
 #[kani::proof]
 #[kani::unwind(34)]
 #[kani::stub(std::time::Instant::now, clock::now)]
-fn contract_update_n2() {
-    check_update::<2>();
+fn contract_update_connected_n1() {
+    check_update::<1, true>();
 }
 
 #[kani::proof]
 #[kani::unwind(34)]
 #[kani::stub(std::time::Instant::now, clock::now)]
-fn contract_update_n3() {
-    check_update::<3>();
+fn contract_update_disconnected_n1() {
+    check_update::<1, false>();
+}
+
+#[kani::proof]
+#[kani::unwind(34)]
+#[kani::stub(std::time::Instant::now, clock::now)]
+fn contract_update_connected_n2() {
+    check_update::<2, true>();
+}
+
+#[kani::proof]
+#[kani::unwind(34)]
+#[kani::stub(std::time::Instant::now, clock::now)]
+fn contract_update_disconnected_n2() {
+    check_update::<2, false>();
+}
+
+#[kani::proof]
+#[kani::unwind(34)]
+#[kani::stub(std::time::Instant::now, clock::now)]
+fn contract_update_connected_n3() {
+    check_update::<3, true>();
+}
+
+#[kani::proof]
+#[kani::unwind(34)]
+#[kani::stub(std::time::Instant::now, clock::now)]
+fn contract_update_disconnected_n3() {
+    check_update::<3, false>();
 }
 
 #[kani::proof]
